@@ -64,6 +64,26 @@ SUMMARY = {
  "C18-r3": "ElGamal proof transcript always appends the default generator",
  "C19-r3": "scalar_from_le_bytes via from_repr_vartime: strict in blst, lenient in the pure-Rust backend",
  "C20-r3": "seal_scalar_with_proof takes the proof nonce from the caller-supplied blinder",
+ "C01-r4": "SecretKeyEnum::to_le_bytes writes the G2 variant big-endian (the wrapper's le codec no longer round-trips a signing key)",
+ "C02-r4": "specialised G2Impl core_verify looks at the identity checks only after the pairing equation failed: (pk=O, sig=O) verifies",
+ "C03-r4": "thread-local hash_to_point memo in G2Impl keyed on the message bytes only: same bytes under another tag give the previous point",
+ "C04-r4": "proof-of-knowledge verify tests 'proof is the identity' only in the failure branch: V=O with U=-(H(m)y) verifies",
+ "C05-r4": "'last accepted' memo in core_verify whose fingerprint omits the tag: the same (pk, sig, bytes) is accepted under another tag directly afterwards",
+ "C06-r4": "PoP aggregate verify takes a multi-signature fast path when all messages are identical: an added identity-key pair is not refused",
+ "C07-r4": "length check moved from TryFrom<&[Signature]> into from_signatures: MultiSignature::try_from accepts a single signature",
+ "C08-r4": "partial signing remembers the last hashed message without the tag: Basic then ProofOfPossession over the same message signs the wrong point",
+ "C09-r4": "per-thread public-key scratch buffer shared by both group assignments: after a 96-byte key the 48-byte key's proof hashes a stale tail",
+ "C10-r4": "ProofCommitment::generate hashes with POP_DST for the ProofOfPossession scheme: honest proofs of that scheme never verify",
+ "C11-r4": "'last rejected' memo in the signcryption validity check keyed without the scheme tag: the honest ciphertext is refused after its relabelled copy",
+ "C12-r4": "share verification caches H(u||v) without the tag: a share verifies against the relabelled copy directly after the genuine ciphertext (and the reverse)",
+ "C13-r4": "canonical-prefix test looks at the first MESSAGE byte: messages of 128+ bytes that start with 0x00 do not open",
+ "C14-r4": "debug_assert in ElGamal decrypt that the plaintext point is not the identity: Enc(1)+Enc(r-1) panics in builds with debug assertions",
+ "C15-r4": "word-at-a-time all-zero test drops the upper half of every 8-byte word: scalars such as 1, 2^32-1 (be) or 2^32 (le) are refused on import",
+ "C16-r4": "per-thread memo of the last validated share payload, 48-byte key also for 96-byte payloads: a non-subgroup point sharing the first half is let through",
+ "C17-r4": "debug_assert that U + H(m)y is not the identity in proof-of-knowledge verify: a crafted commitment aborts builds with debug assertions",
+ "C18-r4": "SignCryptDecryptionKey::decrypt uses the Basic tag for MessageAugmentation ciphertexts",
+ "C19-r4": "HKDF hash-to-scalar retries while `s < Scalar::ONE`: the ordering of scalars differs between the backends, about one derivation in 2^31 diverges (witness seed found by a 49 s brute-force search)",
+ "C20-r4": "time-lock seed 'hedged' with the identifier by assignment instead of xor: identifiers of 32+ bytes (any identifier under MessageAugmentation) make sealing deterministic",
 }
 
 def main():
